@@ -172,7 +172,7 @@ Record oracle := mkOracle {
   jumped : nat -> blocks -> blocks -> blocks;  (* iteration, blocks two sweeps ago, current -> extrapolation *)
   accept : nat -> bool;                        (* line search accepted? *)
   stop : nat -> bool;                          (* the convergence test fired (final normalisation, then break) *)
-  cb_stop : nat -> bool;                       (* the callback returned True (break at once, no normalisation) *)
+  cb_stop : nat -> bool;                       (* the callback returned True (final normalisation, then break) *)
 }.
 
 Record config := mkConfig {
@@ -240,7 +240,7 @@ Fixpoint loop (n it : nat) (l : lstate) : lstate :=
   | O => l
   | S n' =>
       let l1 := iteration it l in
-      if use_callback C && cb_stop Orc it then emit l1 EBreak
+      if use_callback C && cb_stop Orc it then emit (finish_iteration l1) EBreak   (* since 3de556b the callback exit normalises too *)
       else if stop Orc it then emit (finish_iteration l1) EBreak
       else loop n' (S it) (finish_iteration l1)
   end.
@@ -450,3 +450,42 @@ Definition cb0_reported (X L m : tensor F) (card : nat) : F * F :=
 Definition cb0_error_of_handed (legacy : bool) (X L m : tensor F) (card : nat) : F * F :=
   err_explicit Op X (tfun Op L) (Some (sparsify card (if legacy then resid_raw X L else resid_imputed X L m))) (Some m).
 End MSparse.
+
+(* ---------------------------------------------------------------- loops that compute one explicit residual per iteration *)
+(* CMTF (squared form), randomised CP, the non-negative Tucker variants, HOOI: update, compute the error of the new iterate,
+   [hand it to the callback, which may stop the run], record it, test for convergence.
+   record_before_callback = true is the code (randomised_parafac since fix 28121fa; parafac and tensor_ring_als always);
+   false = randomised_parafac before that fix: a callback returning True broke BEFORE the value was appended. *)
+Section SimpleLoop.
+Variables (St E : Type).
+Record soracle := mkS { s_update : nat -> St -> St; s_stop : nat -> bool; s_cb_stop : nat -> bool }.
+Variables (err : St -> E) (Or : soracle) (record_before_callback : bool).
+Fixpoint s_loop (n it : nat) (cur : St) (errs : list E) : St * list E :=
+  match n with
+  | 0 => (cur, errs)
+  | S n' =>
+      let st := s_update Or it cur in
+      if s_cb_stop Or it then (st, if record_before_callback then errs ++ [err st] else errs)
+      else let errs' := errs ++ [err st] in
+           if s_stop Or it then (st, errs') else s_loop n' (S it) st errs'
+  end.
+End SimpleLoop.
+Arguments mkS {St}. Arguments s_update {St}. Arguments s_stop {St}. Arguments s_cb_stop {St}. Arguments s_loop {St E}.
+
+(* ---------------------------------------------------------------- observable projection of a skeleton trace *)
+(* what an outside observer of parafac / non_negative_parafac / non_negative_parafac_hals sees when the MTTKRP, cp_normalize, the
+   error computation and the callback are logged:  10+m = MTTKRP of mode m (block update);  1 = cp_normalize;  2 = error by the
+   shortcut;  3 = explicit error;  4 = callback.   A line-search iteration computes the explicit error of the candidate and, when
+   it rejects it, the shortcut error of the current iterate; its Report computes nothing more. *)
+Fixpoint obs_of_trace {B E} (after_ls : bool) (tr : list (event B E)) : list nat :=
+  match tr with
+  | [] => []
+  | EUpdate m :: tr' => (10 + m) :: obs_of_trace false tr'
+  | ENormalize :: tr' => 1 :: obs_of_trace after_ls tr'
+  | ELineSearch true :: tr' => 3 :: obs_of_trace true tr'
+  | ELineSearch false :: tr' => 3 :: 2 :: obs_of_trace true tr'
+  | EReport _ _ :: tr' => if after_ls then obs_of_trace false tr' else 2 :: obs_of_trace false tr'
+  | ECallback _ _ :: tr' => 4 :: obs_of_trace after_ls tr'
+  | EBreak :: tr' => obs_of_trace after_ls tr'
+  | EReturn _ :: tr' => obs_of_trace after_ls tr'
+  end.
